@@ -565,16 +565,18 @@ impl<F: Float, L: Label> DecisionTree<F, L> {
 
     /// Return features_idx of this tree (BFT)
     pub fn features(&self) -> Vec<usize> {
-        // vector of feature indexes to return
-        let mut fitted_features = HashSet::new();
+        // vector of feature indexes to return, in the order the level-order traversal meets them
+        // first (collecting them out of the hash set returned them in a different order on every run)
+        let mut seen = HashSet::new();
+        let mut fitted_features = Vec::new();
 
         for node in self.iter_nodes().filter(|node| !node.is_leaf()) {
-            if !fitted_features.contains(&node.feature_idx) {
-                fitted_features.insert(node.feature_idx);
+            if seen.insert(node.feature_idx) {
+                fitted_features.push(node.feature_idx);
             }
         }
 
-        fitted_features.into_iter().collect::<Vec<_>>()
+        fitted_features
     }
 
     /// Return the mean impurity decrease for each feature
